@@ -34,7 +34,7 @@ def bijection(name, alph):
         norm = lambda x: "".join(map(str, x)) if isinstance(x, (np.ndarray, list, tuple)) and not isinstance(s, tuple) else x
         if norm(d) != norm(s) and str(d) != str(s):
             return f"decode({c}) = {d!r} != {s!r}"
-    for bad in (-1, n, n + 1, 255, 256, 257, 2 ** 31):
+    for bad in (-1, -2, -n, -255, -256, -257, -256 + (n - 1), -512, -512 + 1, -489, -253, -2 ** 31, n, n + 1, 255, 256, 257, 2 ** 31):
         if bad < 0 or bad >= n:
             for fn in ("decode", "decode_multiple"):
                 try:
